@@ -5,6 +5,7 @@ import (
 	"os"
 	"runtime"
 	"strconv"
+	"sync"
 	"sync/atomic"
 	"testing"
 	"time"
@@ -199,6 +200,104 @@ func (c *checker) faultPass(name string, base baseKind, maxLen int, workers int)
 	c.r.Set(name+"_seconds", time.Since(t0).Seconds())
 }
 
+// multiFilePass: every layout base (live heights spread over up to three log files, made by reopen or by an
+// in-session cleanup rotation, 255 prune records since the last cleanup) x every history with 1..maxLen
+// symbols that ends in an FS-touching call. The live view is checked after every flush / reopen; the crash
+// images of the last symbol (those of earlier symbols belong to the shorter history) are recovered and
+// compared with the model, with the post-recovery continuation.
+func (c *checker) multiFilePass(name string, heights, maxLen int, o crashfs.Options, workers int) {
+	t0 := time.Now()
+	rec0, img0 := c.recoveries.Load(), c.images.Load()
+	layouts := allLayouts(heights)
+	var hists [][]sym
+	for _, h := range allHistories(1, maxLen) {
+		if touchesFS(h[len(h)-1]) {
+			hists = append(hists, h)
+		}
+	}
+	var done, skipped, spanning, spanning3, removing, withLive, sharedMulti, removedLogs atomic.Int64
+	var sampleMu sync.Mutex
+	sampleIdx, sample := -1, map[string]any(nil)
+	n := len(layouts) * len(hists)
+	// histories in the outer loop: a time cap cuts the longest histories of all layouts
+	ev.Par(n, workers, func(i int) {
+		if c.r.OutOfTime() {
+			skipped.Add(1)
+			return
+		}
+		h, b := hists[i/len(layouts)], layouts[i%len(layouts)]
+		r := c.execute(h, b, -1, 0, false)
+		c.histories.Add(1)
+		done.Add(1)
+		if r.broken {
+			return
+		}
+		nops := int64(r.fs.NumOps())
+		c.opsSeen.Add(nops - int64(r.rows[firstHistRow(r)-1].opEnd))
+		for {
+			m := c.maxOps.Load()
+			if nops <= m || c.maxOps.CompareAndSwap(m, nops) {
+				break
+			}
+		}
+		if r.place.maxFilesOfLiveHeight >= 2 {
+			spanning.Add(1)
+		}
+		if r.place.maxFilesOfLiveHeight >= 3 {
+			spanning3.Add(1)
+		}
+		if r.place.removedLogs > 0 {
+			removing.Add(1)
+			removedLogs.Add(int64(r.place.removedLogs))
+		}
+		if r.place.removedWithLive {
+			withLive.Add(1)
+			c.r.Outcome("cleanup-removed-log-file-while-a-height-is-live")
+		}
+		if r.place.removedSharedMulti {
+			sharedMulti.Add(1)
+			c.r.Outcome("cleanup-after-pruning-multi-file-height-that-shared-a-file-with-a-live-height")
+			// written-out case: the one with the lowest job index (independent of the worker schedule)
+			sampleMu.Lock()
+			if sampleIdx < 0 || i < sampleIdx {
+				var ops []string
+				for _, o := range r.fs.Ops()[r.rows[firstHistRow(r)-1].opEnd:] {
+					ops = append(ops, o.String())
+				}
+				sampleIdx = i
+				sample = map[string]any{"pass": name, "base": b.String(), "history": histString(h), "fs_ops_of_history": ops, "final_model": r.ms[0].content()}
+			}
+			sampleMu.Unlock()
+		}
+		c.crashCheck(r, lastStepRow(r, len(h)-1), len(r.rows), func(*row) crashfs.Options { return o }, contWanted)
+	})
+	if sample != nil {
+		c.r.Sample(sample)
+	}
+	if skipped.Load() > 0 || c.r.OutOfTime() {
+		c.r.Incomplete(fmt.Sprintf("%s: time budget hit; %d of %d (layout, history) pairs not run (or cut short); shorter histories run first", name, skipped.Load(), n))
+	}
+	c.r.Set(name+"_layouts", int64(len(layouts)))
+	c.r.Set(name+"_layout_heights", int64(heights))
+	c.r.Set(name+"_max_len_target", int64(maxLen))
+	c.r.Set(name+"_histories_per_layout", int64(len(hists)))
+	c.r.Set(name+"_histories", done.Load())
+	c.r.Set(name+"_histories_live_height_in_2plus_files", spanning.Load())
+	c.r.Set(name+"_histories_live_height_in_3_files", spanning3.Load())
+	c.r.Set(name+"_histories_removing_log_files", removing.Load())
+	c.r.Set(name+"_log_files_removed", removedLogs.Load())
+	c.r.Set(name+"_histories_cleanup_removes_file_while_height_live", withLive.Load())
+	c.r.Set(name+"_histories_cleanup_prunes_multifile_height_sharing_file_with_live_height", sharedMulti.Load())
+	c.r.Set(name+"_crash_images", c.images.Load()-img0)
+	c.r.Set(name+"_recoveries", c.recoveries.Load()-rec0)
+	c.r.Set(name+"_seconds", time.Since(t0).Seconds())
+	// vacuity guard: the pass exists to put obsolete-file removal next to live multi-file heights
+	if skipped.Load() == 0 && !c.r.OutOfTime() && c.r.Violations() == 0 && (withLive.Load() == 0 || sharedMulti.Load() == 0 || spanning.Load() == 0) {
+		c.r.Infra("%s", fmt.Sprintf("%s is vacuous: histories with a live height in >=2 files %d, cleanups removing a file while a height is live %d, of those after pruning a multi-file height sharing a file with a live one %d",
+			name, spanning.Load(), withLive.Load(), sharedMulti.Load()))
+	}
+}
+
 // bigBatchPass: a fixed list of histories with a bulk append ('A' = 320 entries at height 1 in one batch,
 // ~37 KB, so the record is fragmented over two 32 KiB blocks); all crash points of all calls, full model.
 var bigBatchHistories = []string{"A f", "a1 f A f", "A f a2 f", "A f r a2 f", "A p1 f", "A f p1 f"}
@@ -278,6 +377,20 @@ func TestCheck(t *testing.T) {
 	if baseFaultLen > 0 {
 		c.faultPass("base255_fault", basePrune255, baseFaultLen, workers)
 	}
+	// heights spanning several log files next to the obsolete-file removal (per-file reference counts):
+	// quick = layouts of 2 heights x suffixes <= 2; thorough = layouts of 2 heights x suffixes <= 3 (superset)
+	// and layouts of 3 heights x suffixes <= 2. Whole-op crash images (crashfs.Boundaries: every op prefix x
+	// every unsynced-data prefix x every namespace-lag prefix); byte cuts of these steps are in base255.
+	if ml := envInt("C14_MULTIFILE_LEN", ev.Pick(r, 2, 3)); ml > 0 {
+		mo := crashfs.Boundaries
+		if envInt("C14_MULTIFILE_FULL", 0) > 0 {
+			mo = crashfs.Full
+		}
+		c.multiFilePass("multifile", envInt("C14_MULTIFILE_HEIGHTS", 2), ml, mo, workers)
+		if ml3 := envInt("C14_MULTIFILE3_LEN", ev.Pick(r, 0, 2)); ml3 > 0 {
+			c.multiFilePass("multifile3h", 3, ml3, mo, workers)
+		}
+	}
 	// block boundary: the batches of the history are written across the first 32 KiB block boundary of the
 	// log file (fragmented record / block padding), for several alignments (one per filler entry kind)
 	fillKinds := envInt("C14_FILL_KINDS", ev.Pick(r, 1, 5))
@@ -301,7 +414,7 @@ func TestCheck(t *testing.T) {
 	rec := c.recoveries.Load()
 	r.Set("evaluations", rec+c.faultRuns.Load()+c.histories.Load())
 	r.Set("distinct_nontrivial", c.distinct())
-	r.Set("rule", "history = sequence over {a1,a2,a3,f,p1,p2,p3,r}; crash image = (op-log prefix, namespace-lag prefix, per-file unsynced-data prefix, byte cut, fill none/zero/0xFF); images are deduplicated by (content hash, expected contents); non-trivial = distinct (image, expectation) pairs actually recovered with the real NewTendermintWALStore")
+	r.Set("rule", "history = sequence over {a1,a2,a3,f,p1,p2,p3,r}, run on the empty log, on the 255-prune base, on a block-fill base, or on every multi-file layout base (height -> subset of 3 log files, boundary kind reopen / cleanup rotation, 255 prune records); crash image = (op-log prefix, namespace-lag prefix, per-file unsynced-data prefix, byte cut, fill none/zero/0xFF); images are deduplicated by (content hash, expected contents); non-trivial = distinct (image, expectation) pairs actually recovered with the real NewTendermintWALStore")
 	r.Set("states", c.distinct())
 	r.Set("transitions", rec)
 	r.Set("traces_validated_against_impl", c.histories.Load()+c.faultRuns.Load())
